@@ -42,7 +42,8 @@ class Shape(object):
             if self.recording:
                 rows.append(["F", "f%d" % index, "", "X", length if self.fmt == "fixed" else "...7", "Recording", str(index)])
             else:
-                rows.append(["F", "f%d" % index, "", "", length, "Integer", "0...99"])
+                # every second field may be empty: a whitespace-only cell is then a cell its field must still reject
+                rows.append(["F", "f%d" % index, "", "X" if index % 2 == 0 else "", length, "Integer", "0...99"])
         rows.append(["F", "rid", "", "", length, "Text", ""])
         for number, check in enumerate(self.checks, 1):
             if check["t"] == "u":
@@ -80,7 +81,7 @@ class Shape(object):
             elif cls == "ok":
                 cells.append(str(value))
             elif cls == "rej":
-                cells.append("x%d" % value if not self.recording else "r%d" % value)
+                cells.append(self.rejected_cell(index + 1, value, number))
             elif cls == "emp":
                 cells.append("")
             elif cls == "grd":
@@ -93,6 +94,19 @@ class Shape(object):
         if row["w"] == "long":
             return cells[:self.nfields] + [rid, "extra"]
         return cells + [rid]
+
+    def rejected_cell(self, column, value, number):
+        """
+        A cell the Integer field of `column` rejects (per the oracles of C02 / C03), drawn from a pool by row number:
+        not an integer, out of the rule's range, empty although mandatory, or -- for a field that may be empty and data
+        that is not fixed-width -- consisting of white space only.
+        """
+        optional = column % 2 == 0
+        if self.fmt == "fixed":
+            pool = ["x%d" % value, "100", "1 1"] if optional else ["   ", "x%d" % value, "100", "-1"]
+        else:
+            pool = [" ", "x%d" % value, "  ", "100", "1.5"] if optional else ["x%d" % value, "", " ", "100", "-1"]
+        return pool[(number - 1) % len(pool)]
 
     def data_text(self, table):
         lines = []
